@@ -129,6 +129,52 @@ def gen_cases(ctx):
     return cases
 
 
+NOTRUN = "NOTRUN"
+
+
+def run_inproc(variant, cases, shards=None, max_faults=6):
+    """run `n` lines (no forked child) sharded; when a process dies or hangs on a line, that line alone is
+    re-run as a forked `c` line to get its FAULT label and the shard continues after it; after max_faults
+    faults in a shard its remaining lines are reported NOTRUN (an implementation that faults everywhere
+    is already reported; this bounds the time)."""
+    import subprocess, threading
+    shards = shards or vlib.NPROC
+    env = dict(os.environ)
+    env["ASAN_OPTIONS"] = "detect_leaks=1:abort_on_error=0:exitcode=99:allocator_may_return_null=1"
+    env["UBSAN_OPTIONS"] = "print_stacktrace=1:halt_on_error=1"
+    exe = [os.path.join(vlib.BUILD, variant, "jlsrun"), "bits"]
+    out = [NOTRUN] * len(cases)
+    size = max(1, (len(cases) + shards - 1) // shards)
+
+    def work(lo, hi):
+        pos, faults = lo, 0
+        while pos < hi and faults < max_faults:
+            try:
+                r = subprocess.run(exe, input="\n".join(c.line(fork=False) for c in cases[pos:hi]) + "\n",
+                                   capture_output=True, text=True, env=env, timeout=600, errors="replace")
+                got = r.stdout.splitlines()
+            except subprocess.TimeoutExpired as e:
+                got = (e.stdout or b"").decode(errors="replace").splitlines() if isinstance(e.stdout, bytes) else (e.stdout or "").splitlines()
+            got = got[:hi - pos]
+            for k, g in enumerate(got):
+                out[pos + k] = g
+            pos += len(got)
+            if pos < hi:            # the process ended on cases[pos]: get its label from a forked run
+                faults += 1
+                try:
+                    r = subprocess.run(exe, input=cases[pos].line(fork=True) + "\n", capture_output=True, text=True, env=env, timeout=60, errors="replace")
+                    lab = (r.stdout.splitlines() or ["PROCFAIL rc=%s" % r.returncode])[0]
+                except subprocess.TimeoutExpired:
+                    lab = "FAULT TIMEOUT"
+                out[pos] = lab
+                pos += 1
+
+    th = [threading.Thread(target=work, args=(lo, min(lo + size, len(cases)))) for lo in range(0, len(cases), size)]
+    [t.start() for t in th]
+    [t.join() for t in th]
+    return out
+
+
 def run_bits(ctx, build=True):
     if build:
         vlib.build(ctx, PROP_FILES, variants=("plain", "asan"))
@@ -144,18 +190,15 @@ def run_bits(ctx, build=True):
     lines = [c.line() for c in cases]
     model = vlib.run_model("bits", lines)
     slow = vlib.run_model("bits", lines, args=["slow"])
-    # ASan build: cases predicted in bounds run in-process; if any shard dies, everything is re-run forked
+    # ASan build: fork under ASan costs ~50 ms, so cases predicted in bounds run in-process (run_inproc)
     inb_idx = [i for i, c in enumerate(cases) if c.inb]
     oob_idx = [i for i, c in enumerate(cases) if not c.inb]
     asan = [None] * len(cases)
-    r_in = vlib.run_c("asan", "bits", [cases[i].line(fork=False) for i in inb_idx])
-    if any(r.startswith("PROCFAIL") for r in r_in):
-        r_in = vlib.run_c("asan", "bits", [lines[i] for i in inb_idx])
-    for i, r in zip(inb_idx, r_in):
+    for i, r in zip(inb_idx, run_inproc("asan", [cases[i] for i in inb_idx])):
         asan[i] = r
     for i, r in zip(oob_idx, vlib.run_c("asan", "bits", [lines[i] for i in oob_idx])):
         asan[i] = r
-    plain_sub = vlib.run_c("plain", "bits", [lines[i] for i in inb_idx])
+    plain_sub = run_inproc("plain", [cases[i] for i in inb_idx])
     plain = {i: r for i, r in zip(inb_idx, plain_sub)}
     stats = {"by_tag": {}, "in_bounds": 0, "oob": 0, "fast_path": 0, "viol": {}}
     keys = set()
@@ -180,6 +223,9 @@ def run_bits(ctx, build=True):
         stats["fast_path"] += fast
         ctx.count(("bits", "asan") + k + (fast, c.inb), nontrivial=c.cnt > 0,
                   sample={"line": line[:120], "implementation": a[:80], "model": m[:80]} if (i % 2500 == 17) else None)
+        if a == NOTRUN:
+            stats["notrun"] = stats.get("notrun", 0) + 1
+            continue
         if c.inb:
             stats["in_bounds"] += 1
             want = hx(splice(c.dst, c.db, c.src, c.sb, c.cnt))
@@ -188,7 +234,7 @@ def run_bits(ctx, build=True):
                 viol("spec_asan", c, line, "implementation(asan)=%s\nrequired (bits outside the range untouched, inside = source bits)=%s" % (a, want))
             p = plain.get(i)
             ctx.count(("bits", "plain") + k + (fast,), nontrivial=c.cnt > 0)
-            if p != want:
+            if p != want and p != NOTRUN:
                 viol("spec_plain", c, line, "implementation(plain)=%s\nrequired=%s" % (p, want))
             if m != want:
                 viol("model_spec", c, line, "model=%s\nrequired=%s" % (m, want))
@@ -200,7 +246,7 @@ def run_bits(ctx, build=True):
             viol("slow_vs_fast", c, line, "bc_bit_copy_slow=%s\nbc_bit_copy=%s" % (s, m))
     d = ctx.extra.setdefault("distribution", {})
     d["bits"] = {"cases": len(cases), "by_generator": stats["by_tag"], "in_bounds": stats["in_bounds"], "out_of_bounds(model OOB, ASan must fault)": stats["oob"],
-                 "memcpy_fast_path_taken": stats["fast_path"], "distinct (dst_bit mod 8, src_bit mod 8, count class)": len(keys),
+                 "memcpy_fast_path_taken": stats["fast_path"], "not_run_after_repeated_faults": stats.get("notrun", 0), "distinct (dst_bit mod 8, src_bit mod 8, count class)": len(keys),
                  "count_classes": sorted({k[2] for k in keys}), "violations_by_kind": stats["viol"]}
     rule = ("bits: case = (dst bytes, dst_bit, src bytes, src_bit, bit_count) for jls_bit_copy on exactly-sized malloc'ed buffers; full grid dst_bit 0..15 x "
             "src_bit 0..15 x count 0..40, all-0/all-1 contents, slack bytes, sample-shaped offsets (entry_count*w, ffwd*w for the 7 widths), long copies up to %d bits, "
